@@ -179,7 +179,11 @@ func writeVector(prop string, pkg string, v *Violation) (string, error) {
 }
 
 func reproduced(v *Violation, ro *replayOutcome) bool {
-	if ro == nil || ro.AssumeKO || ro.TagErr != "" {
+	if ro == nil || ro.AssumeKO {
+		return false
+	}
+	// the vector ends at the violated assertion; the native run goes on and may ask for more
+	if ro.TagErr != "" && !strings.HasPrefix(ro.TagErr, "input vector exhausted") {
 		return false
 	}
 	switch {
